@@ -115,6 +115,9 @@ struct Script {
     cfg: Config,
     pool: Vec<Vec<u8>>,
     ops: Vec<ScriptOp>,
+    /// index of the operation before which the fault is armed (occurrences are counted from
+    /// there); None = armed from the very beginning
+    arm_at: Option<usize>,
 }
 
 #[derive(Clone)]
@@ -138,6 +141,7 @@ fn make_long_wal_script(seed: u64) -> Script {
         counter += 1;
         ops.push(ScriptOp::Write(vec![(rng.pick(&pool).clone(), Some(gen::tagged_value(&mut rng, &format!("v{counter}:"), 200)))]));
     }
+    let arm_at = ops.len();
     ops.push(ScriptOp::Reopen(cfg));
     for i in 0..4000u64 {
         counter += 1;
@@ -151,7 +155,7 @@ fn make_long_wal_script(seed: u64) -> Script {
     for _ in 0..20 {
         ops.push(ScriptOp::Get(rng.pick(&pool).clone()));
     }
-    Script { cfg, pool, ops }
+    Script { cfg, pool, ops, arm_at: Some(arm_at) }
 }
 
 fn make_script(history: u64, seed: u64, n_ops: usize) -> Script {
@@ -196,10 +200,12 @@ fn make_script(history: u64, seed: u64, n_ops: usize) -> Script {
             ops.push(ScriptOp::Reopen(Config { reuse: rng.chance(0.5), ..cfg }));
         }
     }
-    Script { cfg, pool, ops }
+    Script { cfg, pool, ops, arm_at: None }
 }
 
 struct RunResult {
+    /// calls per (kind, class) from the arming point to the end of the armed operation (for
+    /// scripts that arm late) or over the whole run
     counts: BTreeMap<(OpKind, PathClass), u64>,
     ops_after_fault: u64,
 }
@@ -208,7 +214,10 @@ fn run_script(out: &mut CaseOut, script: &Script, fault: Option<Fault>, ctx: &se
     let d = director();
     d.reset(7);
     let fs = SimFs::from_image(&dbutil::root_image());
-    fs.arm_fault(fault.clone());
+    if script.arm_at.is_none() {
+        fs.arm_fault(fault.clone());
+    }
+    let mut counts_in_window: Option<BTreeMap<(OpKind, PathClass), u64>> = None;
     let mut sess = Session::new(fs.clone(), script.cfg);
     sess.fill_cache = false;
     let mut model = TriModel::default();
@@ -242,8 +251,16 @@ fn run_script(out: &mut CaseOut, script: &Script, fault: Option<Fault>, ctx: &se
     if !open_db(&mut sess, out, &fs) {
         return None;
     }
-    for op in &script.ops {
+    for (opi, op) in script.ops.iter().enumerate() {
         watch::tick();
+        let window = script.arm_at == Some(opi);
+        if window {
+            fs.reset_call_counts();
+            fs.arm_fault(fault.clone());
+        }
+        if script.arm_at.map_or(false, |a| opi == a + 1) && counts_in_window.is_none() {
+            counts_in_window = Some(fs.call_counts());
+        }
         if fs.fault_fired().0 > 0 {
             ops_after_fault += 1;
         }
@@ -280,7 +297,7 @@ fn run_script(out: &mut CaseOut, script: &Script, fault: Option<Fault>, ctx: &se
             }
         }
     }
-    let counts = fs.call_counts();
+    let counts = counts_in_window.unwrap_or_else(|| fs.call_counts());
     let (fired, _) = fs.fault_fired();
     out.add("faults_fired", (fired > 0) as u64);
     // the fault is gone; reopen and judge the durable state
@@ -356,8 +373,8 @@ fn run_script(out: &mut CaseOut, script: &Script, fault: Option<Fault>, ctx: &se
 
 pub fn run_case(tier: &str, seed: u64, idx: u64) -> CaseOut {
     let mut out = CaseOut::new();
-    // every 20th case runs the long-WAL script (history 4), the others rotate over scripts 0-3
-    let (history, j) = if idx % 20 == 19 { (4, idx / 20) } else { (idx % HISTORIES, idx / HISTORIES) };
+    // every 16th case runs the long-WAL script (history 4), the others rotate over scripts 0-3
+    let (history, j) = if idx % 16 == 15 { (4, idx / 16) } else { (idx % HISTORIES, idx / HISTORIES) };
     let script = make_script(history, seed, if tier == "quick" { 150 } else { 220 });
     // pilot: no fault, classify the call stream
     let mut pilot_out = CaseOut::new();
@@ -372,13 +389,20 @@ pub fn run_case(tier: &str, seed: u64, idx: u64) -> CaseOut {
     }
     let pilot = pilot.unwrap();
     let pos = if history == 4 {
-        // the interesting calls of this script are the few made while opening / taking over files
+        // the fault is armed for the reopen in the middle of the script: the first and the last
+        // three occurrences of every kind of call made during that reopen
         let mut v = vec![];
         for ((kind, class), n) in &pilot.counts {
-            if *n <= 8 && !matches!(kind, OpKind::IsDir | OpKind::Lock | OpKind::Mkdir | OpKind::RemoveDir) {
-                for o in 0..*n {
-                    v.push((*kind, *class, o));
-                }
+            if matches!(kind, OpKind::IsDir | OpKind::Lock | OpKind::Mkdir | OpKind::RemoveDir) {
+                continue;
+            }
+            let mut occ: BTreeSet<u64> = BTreeSet::new();
+            for o in 0..3.min(*n) {
+                occ.insert(o);
+                occ.insert(*n - 1 - o);
+            }
+            for o in occ {
+                v.push((*kind, *class, o));
             }
         }
         v
@@ -387,9 +411,12 @@ pub fn run_case(tier: &str, seed: u64, idx: u64) -> CaseOut {
     };
     let n_pos = pos.len() as u64;
     let modes = [FaultMode::Transient, FaultMode::StickySame, FaultMode::StickyAll];
+    // the long-WAL script tries every position with a transient fault first (a sticky fault during
+    // a reopen mostly just makes the open fail), the other scripts interleave the modes
     let combo = j % (n_pos * 3);
-    let (kind, class, nth) = pos[(combo / 3) as usize];
-    let mode = modes[(combo % 3) as usize];
+    let (pos_index, mode_index) = if history == 4 { (combo % n_pos, combo / n_pos) } else { (combo / 3, combo % 3) };
+    let (kind, class, nth) = pos[pos_index as usize];
+    let mode = modes[mode_index as usize];
     // (SimFs can also report an error *after* applying a mutating call. That model is not used: a
     // rename that happens and then reports failure goes beyond 'the operation fails'; the only
     // error-after-effect in the enumeration is a failing flush, which is a call of its own.)
